@@ -306,7 +306,7 @@ func Wrap(k Kind, src *Reader) io.Reader {
 		br.Peek(1)
 		return br
 	case KRich:
-		return &Rich{br: bufio.NewReaderSize(src, 4096)}
+		return &Rich{br: bufio.NewReaderSize(src, 512)}
 	case KLimited:
 		return io.LimitReader(src, 1<<40)
 	case KOddLen:
